@@ -39,7 +39,6 @@ use dmntk_feel::values::{Value, Values, VALUE_FALSE, VALUE_TRUE};
 use dmntk_feel::{value_null, FeelDate, FeelDateTime, FeelDaysAndTimeDuration, FeelNumber, FeelTime, FeelYearsAndMonthsDuration, Name, Scope, ToFeelString};
 use regex::Regex;
 use std::borrow::Borrow;
-use std::cmp::Ordering;
 use std::convert::TryFrom;
 
 /// Builds null value with invalid argument type message.
@@ -932,22 +931,22 @@ pub fn sort(list: &Value, ordering_function: &Value) -> Value {
   if let Value::List(items) = list.clone() {
     if let Value::FunctionDefinition(parameters, body, _) = ordering_function {
       if parameters.len() == 2 {
-        let mut elements = items.as_vec().clone();
-        elements.sort_by(|x, y| {
+        // returns `true` when, according to the ordering function, the first value precedes the second one
+        let precedes = |x: &Value, y: &Value| {
           let mut ctx = FeelContext::default();
           ctx.set_entry(&parameters[0].0, x.clone());
           ctx.set_entry(&parameters[1].0, y.clone());
           let scope: Scope = ctx.into();
-          if let Value::Boolean(result) = body.evaluate(&scope) {
-            if result {
-              Ordering::Less
-            } else {
-              Ordering::Equal
-            }
-          } else {
-            Ordering::Equal
-          }
-        });
+          matches!(body.evaluate(&scope), Value::Boolean(true))
+        };
+        // Every item is inserted before the first of the already sorted items that it precedes.
+        // The sort is stable and, unlike sorting functions from the standard library, it does
+        // not panic when the ordering function given by the user is not a consistent ordering.
+        let mut elements: Vec<Value> = Vec::with_capacity(items.as_vec().len());
+        for item in items.as_vec() {
+          let position = elements.partition_point(|element| !precedes(item, element));
+          elements.insert(position, item.clone());
+        }
         Value::List(Values::new(elements))
       } else {
         value_null!("sort: ordering function should take exactly two arguments")
